@@ -21,9 +21,9 @@ func init() {
 	Register(&Spec{
 		ID:        "C20",
 		Technique: "runtime monitoring: agreement monitors between the static views of an expression (traversal, list, map, call, type constraint) and its evaluation / its parsers, in both syntaxes",
-		Rule: "cases rotate over (a) traversal-shaped source texts (attribute, string/number index, legacy index, keyword roots, spacing/newlines/comments between steps, parentheses) whose static traversal is applied to generated scopes and compared with evaluation, incl. the relative view, repeated and in either order; (b) the same texts through the stand-alone traversal parser vs the expression parser; (c) tuple/object/call expressions (native and JSON) whose static parts are evaluated one by one and compared with the whole; (d) generated cty types rendered with TypeString and parsed back natively and from a JSON string; " +
+		Rule: "cases rotate over (a) traversal-shaped source texts (attribute, string/number index, legacy index, keyword roots, spacing/newlines/comments between steps, parentheses) whose static traversal is applied to generated scopes and compared with evaluation, incl. the relative view, repeated and in either order; (b) the same texts through the stand-alone traversal parser vs the expression parser; (c) tuple/object/call expressions (native and JSON) whose static parts are evaluated one by one and compared with the whole, and for any expression (random JSON values, random native expressions) whatever static list/map view it offers must describe the value it evaluates to; (d) generated cty types rendered with TypeString and parsed back natively and from a JSON string; " +
 			"non-trivial = the static view succeeded and had >= 2 steps / parts, or the type has depth >= 2; distinct by source text",
-		Assumptions: []string{"cty value equality", "types are drawn from the type-constraint language: primitives, any, list/set/map, tuple, object with identifier attribute names (keywords included), no optional attributes"},
+		Assumptions: []string{"cty value equality", "types are drawn from the type-constraint language: primitives, any, list/set/map, tuple, object with identifier attribute names (keywords, combining marks, connector punctuation and letter numbers included), no optional attributes"},
 		Quick:       Plan{Batches: 16, PerBatch: 2500, MinNonTrivial: 10000},
 		Thorough:    Plan{Batches: 64, PerBatch: 80000, MinNonTrivial: 400000},
 		Case:        c20Case,
